@@ -2,8 +2,9 @@
    Property theorems only (each closed by `exact` of a lemma from Proofs/Gram*.v) + non-vacuity examples.
    "Integral" = formal integral of polynomials (Base/PolyInt.v).  Model: Model/Gram.v. *)
 From Coq Require Import ZArith List QArith Qcanon Bool Lia.
-From SG Require Import Base.QcUtil Base.PolyInt Model.Gram
-  Proofs.GramHat Proofs.GramEntries Proofs.GramPD Proofs.GramNorm.
+From SG Require Import Base.QcUtil Base.PolyInt Model.Gram Model.GramSolve
+  Proofs.GramHat Proofs.GramEntries Proofs.GramPD Proofs.GramNorm
+  Proofs.KronSOS Proofs.StripeSOS Proofs.GramKron Proofs.GramSolveP Proofs.GramGauss Proofs.DECacheP Proofs.DEPaths Proofs.DEUniform.
 Import ListNotations.
 Open Scope Qc_scope.
 
@@ -80,8 +81,112 @@ Theorem C16_gram_1d_positive_definite : forall xs v lam,
   0 < quad (R_matrix_nonuniform (pts1 xs) lam) v.
 Proof. exact gram_1d_positive_definite. Qed.
 Print Assumptions C16_gram_1d_positive_definite.
-(* NOT proved: positive definiteness of the d-dimensional (Kronecker) matrix for d >= 2; the harness tests it per case
-   with an exact LDL^T factorisation of the implementation matrix. *)
+
+(* ---- positive definiteness in EVERY dimension (round 2; Proofs/KronSOS.v, StripeSOS.v, GramKron.v): the d-dimensional system
+   matrix is the Kronecker product of the 1D Gram matrices (the coded entry Rval, adjacency test included, is the product of
+   the 1D entries), its quadratic form is a weighted sum of squares with positive weights, and it is positive definite for every
+   choice of strictly increasing stripes, every lambda >= 0; likewise build_R_matrix for every level vector *)
+Theorem C16_gram_nd_quadratic_form_is_weighted_sum_of_squares : forall stripes lam v,
+  Forall strictly_inc stripes -> length v = length (cross (map windows stripes)) ->
+  quad (R_matrix_nonuniform (cross (map windows stripes)) lam) v
+  = sos_form (Tprod (map hat_fam stripes)) (cross (map windows stripes)) v + lam * dotQ v v
+  /\ coeffs_pos (Tprod (map hat_fam stripes)).
+Proof. exact gram_nd_quadratic_form_is_sos. Qed.
+Theorem C16_gram_nd_positive_definite : forall stripes lam v,
+  Forall strictly_inc stripes -> 0 <= lam -> length v = length (cross (map windows stripes)) ->
+  Exists (fun x => x <> 0) v ->
+  0 < quad (R_matrix_nonuniform (cross (map windows stripes)) lam) v.
+Proof. exact gram_nd_positive_definite. Qed.
+(* ... on the grid the code builds from stripes of the unit interval (grid_hats, incl. the coded special case of one inner point) *)
+Theorem C16_gram_grid_positive_definite : forall stripes lam v,
+  Forall unit_stripe stripes -> 0 <= lam -> length v = length (grid_hats stripes) -> Exists (fun x => x <> 0) v ->
+  0 < quad (R_matrix_nonuniform (grid_hats stripes) lam) v.
+Proof. exact gram_grid_positive_definite. Qed.
+(* ... and build_R_matrix (1/3 - 1/12 rule with the coded overlap test) for EVERY level vector *)
+Theorem C16_gram_uniform_positive_definite : forall lv lam v,
+  0 <= lam -> length v = length (index_list lv) -> Exists (fun x => x <> 0) v ->
+  0 < quad (R_matrix_uniform lv lam) v.
+Proof. exact gram_uniform_positive_definite. Qed.
+Print Assumptions C16_gram_nd_quadratic_form_is_weighted_sum_of_squares.
+Print Assumptions C16_gram_nd_positive_definite.
+Print Assumptions C16_gram_grid_positive_definite.
+Print Assumptions C16_gram_uniform_positive_definite.
+
+(* ---- hence the linear system has at most one solution: what the verified checker accepts IS the solution *)
+Theorem C16_solution_unique : forall stripes lv lam x y b, 0 <= lam ->
+  (Forall unit_stripe stripes -> length x = length (grid_hats stripes) -> length y = length (grid_hats stripes) ->
+   matvec (R_matrix_nonuniform (grid_hats stripes) lam) x = b -> matvec (R_matrix_nonuniform (grid_hats stripes) lam) y = b -> x = y) /\
+  (length x = length (index_list lv) -> length y = length (index_list lv) ->
+   matvec (R_matrix_uniform lv lam) x = b -> matvec (R_matrix_uniform lv lam) y = b -> x = y).
+Proof.
+  intros stripes lv lam x y b Hlam. split.
+  - intros Hs Hx Hy Ex Ey. exact (gram_grid_solution_unique stripes lam x y b Hs Hlam Hx Hy Ex Ey).
+  - intros Hx Hy Ex Ey. exact (gram_uniform_solution_unique lv lam x y b Hlam Hx Hy Ex Ey).
+Qed.
+Theorem C16_accepted_certificate_is_the_solution : forall stripes lam x y b,
+  Forall unit_stripe stripes -> 0 <= lam ->
+  length x = length (grid_hats stripes) -> length y = length (grid_hats stripes) ->
+  check_solution (R_matrix_nonuniform (grid_hats stripes) lam) x b = true ->
+  matvec (R_matrix_nonuniform (grid_hats stripes) lam) y = b -> y = x.
+Proof.
+  intros stripes lam x y b Hs Hlam Hx Hy Hc Ey.
+  exact (gram_grid_solution_unique stripes lam y x b Hs Hlam Hy Hx Ey (check_solution_sound _ _ _ Hc)).
+Qed.
+Print Assumptions C16_solution_unique.
+Print Assumptions C16_accepted_certificate_is_the_solution.
+
+(* ---- the solve inside the model (Model/GramSolve.v: exact elimination without pivoting, guarded by the checker) and the
+   complete pipeline data set -> surpluses: whatever the model returns solves the system, is the ONLY solution, and is
+   normalised as coded; and the model's solve NEVER fails on these systems (elimination without pivoting succeeds on every
+   matrix with a positive quadratic form, Proofs/GramGauss.v), so the pipeline is total: existence and uniqueness *)
+Theorem C16_model_solve_sound : forall G b x, solve_checked G b = Some x -> matvec G x = b.
+Proof. exact solve_checked_sound. Qed.
+Theorem C16_pipeline_dimension_wise : forall stripes lam data signs labelled raw fin integ,
+  Forall unit_stripe stripes -> 0 <= lam ->
+  surpluses_nonuniform stripes lam false data signs labelled = Some (raw, fin, integ) ->
+  let G := R_matrix_nonuniform (grid_hats stripes) lam in
+  let b := rhs (grid_hats stripes) data signs in
+  matvec G raw = b /\
+  (forall y, length y = length (grid_hats stripes) -> matvec G y = b -> y = raw) /\
+  (fin, integ) = normalise_weighted labelled (tensor_weights stripes) raw.
+Proof. exact surpluses_nonuniform_spec. Qed.
+Theorem C16_pipeline_uniform : forall lv lam data signs labelled raw fin integ,
+  0 <= lam ->
+  surpluses_uniform lv lam false data signs labelled = Some (raw, fin, integ) ->
+  let G := R_matrix_uniform lv lam in
+  let b := rhs_uniform lv data signs in
+  matvec G raw = b /\
+  (forall y, length y = length (index_list lv) -> matvec G y = b -> y = raw) /\
+  (fin, integ) = normalise_uniform labelled raw.
+Proof. exact surpluses_uniform_spec. Qed.
+Theorem C16_model_solve_complete : forall n G b, wfM n G -> length b = n -> posdef n G ->
+  exists x, solve_checked G b = Some x /\ length x = n /\ matvec G x = b.
+Proof. exact solve_checked_complete. Qed.
+Theorem C16_pipeline_total : forall stripes lv lam data signs labelled, 0 <= lam ->
+  (Forall unit_stripe stripes ->
+   exists raw fin integ, surpluses_nonuniform stripes lam false data signs labelled = Some (raw, fin, integ)) /\
+  (exists raw fin integ, surpluses_uniform lv lam false data signs labelled = Some (raw, fin, integ)).
+Proof.
+  intros stripes lv lam data signs labelled Hlam. split.
+  - intro Hs. exact (surpluses_nonuniform_total stripes lam data signs labelled Hs Hlam).
+  - exact (surpluses_uniform_total lv lam data signs labelled Hlam).
+Qed.
+Theorem C16_system_has_unique_solution : forall stripes lam b,
+  Forall unit_stripe stripes -> 0 <= lam -> length b = length (grid_hats stripes) ->
+  exists x, length x = length (grid_hats stripes) /\ matvec (R_matrix_nonuniform (grid_hats stripes) lam) x = b /\
+            forall y, length y = length (grid_hats stripes) -> matvec (R_matrix_nonuniform (grid_hats stripes) lam) y = b -> y = x.
+Proof. exact gram_grid_system_has_unique_solution. Qed.
+Print Assumptions C16_model_solve_complete.
+Print Assumptions C16_pipeline_total.
+Print Assumptions C16_system_has_unique_solution.
+(* the code solves the scaled system (R * s) x = b * s with s = 1 / max R: same solutions *)
+Theorem C16_scaled_system_same_solutions : forall G b x s, s <> 0 ->
+  (matvec (map (map (fun a => a * s)) G) x = map (fun a => a * s) b <-> matvec G x = b).
+Proof. exact scaled_system_same_solutions. Qed.
+Print Assumptions C16_model_solve_sound.
+Print Assumptions C16_pipeline_dimension_wise.
+Print Assumptions C16_pipeline_uniform.
+Print Assumptions C16_scaled_system_same_solutions.
 
 (* ---- right-hand side = sample mean of the tensor hats, signed by the labels *)
 Theorem C16_rhs_is_sample_mean : forall pts data signs, Forall (Forall proper) pts ->
@@ -89,6 +194,20 @@ Theorem C16_rhs_is_sample_mean : forall pts data signs, Forall (Forall proper) p
   = map (fun t => sum_signed signs (map (hat_nd hat_scalar t) data) * (1 / qc_of_nat (length data))) pts.
 Proof. exact rhs_is_sample_mean. Qed.
 Print Assumptions C16_rhs_is_sample_mean.
+
+(* ---- the code paths selected by the grid size (N < 200 completely vectorised hats; N >= 200 per-sample neighbour search resp.
+   floor/ceil index search with unclamped hats) compute the same right-hand side, for every grid and every data set
+   (Proofs/DEPaths.v, DEUniform.v, shared with C17) *)
+Theorem C16_rhs_paths_agree : forall stripes lv data signs,
+  (Forall good_stripe stripes -> Forall (fun x => length x = length stripes) data ->
+   rhs_large stripes data signs = rhs (grid_hats stripes) data signs) /\
+  (Forall (fun x => length x = length lv) data -> rhs_uniform_large lv data signs = rhs_uniform lv data signs).
+Proof.
+  intros stripes lv data signs. split.
+  - exact (rhs_large_eq_rhs stripes data signs).
+  - exact (rhs_uniform_large_eq_rhs_uniform lv data signs).
+Qed.
+Print Assumptions C16_rhs_paths_agree.
 
 (* ---- the hat evaluation variants agree, for ALL points (nodes and cell boundaries included) *)
 Theorem C16_hat_variants_agree : forall t x, proper t ->
@@ -111,11 +230,30 @@ Theorem C16_normalise_uniform_mean_pos_is_one : forall labelled a, a <> [] ->
   mean_pos (map (fun _ => 1) a) (fst (normalise_uniform labelled a)) = 1.
 Proof. exact normalise_uniform_mean_pos_is_one. Qed.
 Print Assumptions C16_normalise_mean_pos_is_one.
+(* ... for the surpluses the model pipeline returns, with the weights of the grid itself (all positive): no hypothesis left *)
+Theorem C16_pipeline_result_is_normalised : forall stripes lv lam ml data signs labelled raw fin integ, integ <> 0 ->
+  (Forall strictly_inc stripes -> surpluses_nonuniform stripes lam ml data signs labelled = Some (raw, fin, integ) ->
+   mean_pos (tensor_weights stripes) fin = 1) /\
+  (surpluses_uniform lv lam ml data signs labelled = Some (raw, fin, integ) -> mean_pos (map (fun _ => 1) raw) fin = 1).
+Proof.
+  intros stripes lv lam ml data signs labelled raw fin integ Hi. split.
+  - intros Hs H. exact (pipeline_nonuniform_normalised stripes lam ml data signs labelled raw fin integ Hs H Hi).
+  - intro H. exact (pipeline_uniform_normalised lv lam ml data signs labelled raw fin integ H Hi).
+Qed.
+Theorem C16_quadrature_weights_positive : forall stripes, Forall strictly_inc stripes -> Forall (fun w => 0 < w) (tensor_weights stripes).
+Proof. exact tensor_weights_pos. Qed.
+Print Assumptions C16_pipeline_result_is_normalised.
+Print Assumptions C16_quadrature_weights_positive.
 
 (* ---- verified checker used for the LAPACK solve: an accepted certificate solves the model system exactly *)
 Theorem C16_check_solution_sound : forall G x b, check_solution G x b = true -> matvec G x = b.
 Proof. exact check_solution_sound. Qed.
 Print Assumptions C16_check_solution_sound.
+
+Print Assumptions C16_entry_function_symmetric.
+Print Assumptions C16_lumped_uniform_is_diagonal.
+Print Assumptions C16_quadratic_form_is_cell_sum.
+Print Assumptions C16_normalise_uniform_mean_pos_is_one.
 
 (* ---- non-vacuity *)
 Definition q (n : Z) (d : positive) : Qc := Q2Qc (n # d).
@@ -141,3 +279,27 @@ Proof. cbv zeta. split; apply Qc_is_canon; vm_compute; reflexivity. Qed.
 
 Example C16_nonvacuous_uniform : Uval [2; 1]%Z [1; 1]%Z [2; 1]%Z = q 1 72 /\ Uval [3]%Z [1]%Z [3]%Z = 0.
 Proof. split; apply Qc_is_canon; vm_compute; reflexivity. Qed.
+
+(* two dimensions, non-uniform: stripes {0,1/4,1/2,1} x {0,1/2,1}; two hats; the 2x2 system matrix, a positive value of the
+   quadratic form, and the model's own solve *)
+Example C16_nonvacuous_2d :
+  let st := [[q 0 1; q 1 4; q 1 2; q 1 1]; [q 0 1; q 1 2; q 1 1]] in
+  Forall unit_stripe st /\ length (grid_hats st) = 2%nat /\
+  R_matrix_nonuniform (grid_hats st) 0 = [[q 1 18; q 1 72]; [q 1 72; q 1 12]] /\
+  quad (R_matrix_nonuniform (grid_hats st) 0) [q 3 1; q (-1) 1] = q 1 2 /\
+  option_map (map (fun x : Qc => this x)) (solve_checked (R_matrix_nonuniform (grid_hats st) 0) [q 1 8; q 1 8])
+  = Some [45 # 23; 27 # 23]%Q.
+Proof.
+  cbv zeta. split; [|split; [|split; [|split]]].
+  - repeat constructor; unfold Qclt; try (vm_compute; reflexivity); apply Qc_is_canon; reflexivity.
+  - reflexivity.
+  - vm_compute. repeat f_equal; apply Qc_is_canon; reflexivity.
+  - apply Qc_is_canon. vm_compute. reflexivity.
+  - vm_compute. reflexivity.
+Qed.
+
+Example C16_nonvacuous_uniform_pd :
+  quad (R_matrix_uniform [2; 1]%Z (q 1 4)) [q 1 1; q (-2) 1; q 1 1] = q 31 18 /\
+  option_map (fun r : list Qc * list Qc * Qc => (map (fun x : Qc => this x) (fst (fst r)), map (fun x : Qc => this x) (snd (fst r)), this (snd r)))
+    (surpluses_uniform [1]%Z 0 false [[q 1 2]; [q 1 4]] [] false) = Some ([9 # 4], [1 # 1], 9 # 4)%Q.
+Proof. split; [apply Qc_is_canon; vm_compute; reflexivity | vm_compute; reflexivity]. Qed.
